@@ -410,7 +410,9 @@ function!(BitNot(b:Integer)=>Integer, {
 
 function!(Negative(b:Integer)=>Integer, {
     let b:i64 = b.try_into()?;
-    Ok((-b).into())
+    b.checked_neg()
+        .map(Into::into)
+        .ok_or_else(|| err_msg("integer overflow"))
 });
 
 macro_rules! int_op{
@@ -420,25 +422,50 @@ macro_rules! int_op{
             let b:i64 = b.try_into()?;
             Ok((a $op b).into())
         });
-    }
+    };
+    // arithmetic that can overflow or divide by zero: a dynamic error, never a panic
+    ($name:ident, checked $method:ident, $what:expr) =>{
+        function!($name(a: Integer, b: Integer)=>Integer, {
+            let a:i64 = a.try_into()?;
+            let b:i64 = b.try_into()?;
+            a.$method(b)
+                .map(Into::into)
+                .ok_or_else(|| err_msg($what))
+        });
+    };
+    // shifts: the amount must be in 0..64
+    ($name:ident, shift $method:ident) =>{
+        function!($name(a: Integer, b: Integer)=>Integer, {
+            let a:i64 = a.try_into()?;
+            let b:i64 = b.try_into()?;
+            u32::try_from(b)
+                .ok()
+                .and_then(|b| a.$method(b))
+                .map(Into::into)
+                .ok_or_else(|| err_msg("shift amount out of range"))
+        });
+    };
 }
 
-int_op!(Plus,+);
-int_op!(Minus,-);
-int_op!(Multiply,*);
-int_op!(Divide,/);
-int_op!(Mod,%);
+int_op!(Plus, checked checked_add, "integer overflow");
+int_op!(Minus, checked checked_sub, "integer overflow");
+int_op!(Multiply, checked checked_mul, "integer overflow");
+int_op!(Divide, checked checked_div, "division by zero or integer overflow");
+int_op!(Mod, checked checked_rem, "division by zero or integer overflow");
 int_op!(BitAnd,&);
 int_op!(BitOr,|);
 int_op!(BitXor,^);
-int_op!(ShiftLeft,<<);
-int_op!(ShiftRight,>>);
+int_op!(ShiftLeft, shift checked_shl);
+int_op!(ShiftRight, shift checked_shr);
 function!(ShiftRightUnsigned(a: Integer, b: Integer)=>Integer, {
     let a:i64 = a.try_into()?;
     let b:i64 = b.try_into()?;
     let a = a as u64;
-    let a = (a >> b) as i64;
-    Ok(a.into())
+    u32::try_from(b)
+        .ok()
+        .and_then(|b| a.checked_shr(b))
+        .map(|a| (a as i64).into())
+        .ok_or_else(|| err_msg("shift amount out of range"))
 });
 
 function!(And(a: Boolean, b: Boolean)=>Boolean, ctx=ctx, arg_opts=raw,{
